@@ -13,6 +13,7 @@ import (
 	corev1 "k8s.io/api/core/v1"
 	rbacv1 "k8s.io/api/rbac/v1"
 	extv1 "k8s.io/apiextensions-apiserver/pkg/apis/apiextensions/v1"
+	kerrors "k8s.io/apimachinery/pkg/api/errors"
 	metav1 "k8s.io/apimachinery/pkg/apis/meta/v1"
 	"k8s.io/apimachinery/pkg/apis/meta/v1/unstructured"
 	"k8s.io/apimachinery/pkg/runtime"
@@ -465,4 +466,24 @@ func SameVersions(a, b map[simkube.ObjKey]string) bool {
 		}
 	}
 	return true
+}
+
+// MissingCache wraps a client so that Gets of the listed kinds answer
+// NotFound, as an informer cache that has not yet seen a just-created object
+// does. Everything else passes through.
+type MissingCache struct {
+	client.Client
+	Kinds map[string]bool
+	// Misses counts the simulated cache misses.
+	Misses int
+}
+
+// Get implements client.Reader.
+func (m *MissingCache) Get(ctx context.Context, key client.ObjectKey, obj client.Object, opts ...client.GetOption) error {
+	gvk := obj.GetObjectKind().GroupVersionKind()
+	if m.Kinds[gvk.Kind] {
+		m.Misses++
+		return kerrors.NewNotFound(schema.GroupResource{Group: gvk.Group, Resource: strings.ToLower(gvk.Kind) + "s"}, key.Name)
+	}
+	return m.Client.Get(ctx, key, obj, opts...)
 }
